@@ -1268,6 +1268,10 @@ class ChoicePayloadDecoder(ConstructedPayloadDecoderBase):
             if not isTagged or component is eoo.endOfOctets:
                 break
 
+        if not asn1Object.isValue:
+            raise error.PyAsn1Error(
+                'No component found for %r' % (asn1Object,))
+
         yield asn1Object
 
 
